@@ -425,7 +425,7 @@ PROPS = {
                         "set_list_entry_at: the documentation says both 'set' and 'insert at'; only get(i)==entry and 'other elements keep "
                         "their order' are asserted, not the length",
                         "a container is never passed as its own entry (aliasing &mut/& is outside the protocol)"],
-        "require_strata": {"both": ["sequence", "capi:filter-grid:some-row-matches", "error-text-completed", "threads", "extreme-dates-completed"]},
+        "require_strata": {"both": ["sequence", "capi:filter-grid:some-row-matches", "error-text-completed", "threads", "extreme-dates-completed", "holder-reuse-completed"]},
         "min_evals": {"quick": 100_000, "thorough": 3_000_000},
     },
     "C18": {
@@ -447,7 +447,7 @@ PROPS = {
                  "evaluations = calls; distinct = distinct histories + sweep sites"),
         "assumptions": ["the model's bookkeeping holds only pointers it owns and frees them at teardown, so a leak inside the library is unreachable at exit and reported by LSan",
                         "ASan's red-zone blind spots (non-adjacent overflow, reuse of the same size class) are covered only by the small Miri subset"],
-        "require_strata": {"both": ["sequence", "null-sweep", "null-sweep-completed", "error-text-completed", "threads", "extreme-dates-completed"]},
+        "require_strata": {"both": ["sequence", "null-sweep", "null-sweep-completed", "error-text-completed", "threads", "extreme-dates-completed", "holder-reuse-completed"]},
         "min_evals": {"quick": 100_000, "thorough": 3_000_000},
     },
 }
